@@ -224,6 +224,21 @@ def universe(run, ecos=None):
             raise Infra("empty universe for " + e)
     return u
 
+def token_universe(run, exe, ecos, L, cap=None, rnd=None):
+    """B1, small scope: every token sequence of length <= L after a stem (Tokens.tla), filtered by the real parser.
+    Returns {eco: [accepted texts]} (sorted; capped by a seeded sample when cap is given) and the candidate counts."""
+    cfg = cfg_consts(TE=set(ecos), TL=L) + "INIT Init\nNEXT Next\nINVARIANT Emit\nCHECK_DEADLOCK FALSE\n"
+    lines, st, dt = tlc(run, "MC_Tokens", cfg, name="tokens.L%d" % L, workers=8, timeout=1800, heap="8g")
+    cand = {e: set() for e in ecos}
+    for v in tagged(lines, "VEC"):
+        cand[v["eco"]].add(v["text"])
+    acc = accept_filter(run, exe, {e: sorted(cand[e]) for e in ecos}, name="tok")
+    counts = {e: [len(cand[e]), len(acc[e])] for e in ecos}
+    if cap:
+        rnd = rnd or random.Random(seed())
+        acc = {e: (sorted(rnd.sample(acc[e], cap)) if len(acc[e]) > cap else acc[e]) for e in ecos}
+    return acc, counts
+
 def tla_str(t):
     return '"' + t.replace("\\", "\\\\").replace('"', '\\"') + '"'
 
